@@ -171,10 +171,10 @@ func suiteFormatFile(env *Env, res *Result) {
 	base := mkScratch(env, "fmt")
 	defer os.RemoveAll(base)
 	type obs struct {
-		check0, check1           CLIResult
-		f1, f2, f3               string
-		e1                       CLIResult
-		gen0, gen1               CLIResult
+		check0, check1 CLIResult
+		f1, f2, f3     string
+		e1             CLIResult
+		gen0, gen1     CLIResult
 	}
 	results := make([]obs, len(texts))
 	parallelFor(len(texts), func(i int) {
